@@ -744,7 +744,12 @@ class PEP(object):
                 print(message)
             # - <psd_matrix, lmi_dual> <= 0
             for psd_matrix in self._list_of_psd_sent_to_wrapper:
-                constraints_combination -= np.sum(psd_matrix.eval_dual() * psd_matrix.matrix_of_expressions)
+                # Use the dual values of the entry-wise equalities when the wrapper provides them
+                # (their symmetric part is psd_matrix.eval_dual(); they differ when the lmi is not symmetric as written).
+                lmi_multipliers = psd_matrix.entries_dual_variable_value
+                if lmi_multipliers is None:
+                    lmi_multipliers = psd_matrix.eval_dual()
+                constraints_combination -= np.sum(lmi_multipliers * psd_matrix.matrix_of_expressions)
 
         # Scalar constraints
         # Dual of inequality constraints >= 0
